@@ -213,6 +213,12 @@ impl StoreTransaction {
     pub fn delete_block(&self, block: &BlockView) -> Result<(), Error> {
         let hash = block.hash();
         let txs_len = block.transactions().len();
+        // the read caches are keyed by block hash and would keep serving the deleted block
+        self.cache.headers.lock().pop(&hash);
+        self.cache.block_uncles.lock().pop(&hash);
+        self.cache.block_proposals.lock().pop(&hash);
+        self.cache.block_tx_hashes.lock().pop(&hash);
+        self.cache.block_extensions.lock().pop(&hash);
         self.delete(COLUMN_BLOCK_HEADER, hash.as_slice())?;
         self.delete(COLUMN_BLOCK_UNCLE, hash.as_slice())?;
         self.delete(COLUMN_BLOCK_EXTENSION, hash.as_slice())?;
